@@ -240,13 +240,13 @@ def r3(ctx):
             if levels is not None:
                 extra_categories = set(pandas.unique(data)).difference(levels)
                 if extra_categories:
-                    warnings.warn(f"{extra_categories}", DataMismatchWarning)
+                    warnings.warn(f"{extra_categories}", %s)
                 data = pandas.Series(pandas.Categorical(data, %s))
             else:
                 data = pandas.Series(data).astype("category")
             ...
     """
-    ok, why = contains_any(P, f, [LV % "categories=levels", LV % "levels"])
+    ok, why = contains_any(P, f, [LV % (w, c) for c in ("categories=levels", "levels") for w in ("DataMismatchWarning", "category=DataMismatchWarning")])
     ctx.check(ok, "C08.R3", "explicit / recorded levels are passed through as given", f.where, ctx.construct(f, text="Categorical(categories=levels)"),
               f"expected pandas.Categorical(data, categories=levels): {why}")
     ctx.check(ok, "C08.R3", "levels are discovered by the categorical dtype conversion (sorted for text, declared order for category dtype)", f.where,
@@ -273,14 +273,15 @@ def r3(ctx):
     SK = """
         def categorical_encode_series_to_sparse_csc_matrix(series, levels=None, drop_first=False):
             series = pandas.Categorical(series, %s)
-            levels = list(levels or series.categories)
+            levels = %s
             ...
             codes = series.codes
             ...
-            sparse_matrix = spsparse.csc_matrix((numpy.ones(codes.shape[0], dtype=float), (indices, codes)), shape=(series.shape[0], len(levels)))
+            sparse_matrix = spsparse.csc_matrix((numpy.ones(codes.shape[0], dtype=float), (indices, codes)), shape=(ANY_rows, len(levels)))
             return levels, sparse_matrix
     """
-    ok, why = contains_any(P, sp, [SK % "levels", SK % "categories=levels"])
+    ok, why = contains_any(P, sp, [SK % (c, l) for c in ("levels", "categories=levels")
+                                   for l in ("list(levels or series.categories)", "list(levels) if levels else list(series.categories)")])
     ctx.check(ok, "C08.R3", "the sparse encoder keeps the categorical's level order and one column per level", sp.where,
               ctx.construct(sp, text="sparse levels"), f"sparse dummy encoder level handling changed: {why}")
 
